@@ -316,13 +316,23 @@ def r3_fpga(program, folder, rep):
     rets = [plain(T.term(r.value)) for r in returns_of(fn)
             if r.value is not None]
     ok = False
-    if len(rets) == 1:
-        for cc in (CC, CCK):
-            key = ("tuple", ("comp", cc, 0), ("comp", cc, 1), P_(ps[2]))
-            if rets[0] in (("get", ("global", "SPINN5_FPGA_LINKS"), key),
-                           ("get", ("global", "SPINN5_FPGA_LINKS"), key,
-                            ("const", None))):
-                ok = True
+    TABLE = ("global", "SPINN5_FPGA_LINKS")
+    # the look-up, whichever way it is spelt (get, item under try/except,
+    # membership test first)
+    keys = []
+    for r_ in rets:
+        for st_ in subterms(r_):
+            if st_[0] in ("get", "item") and st_[1] == TABLE:
+                keys.append(st_[2])
+    if not keys:
+        raise AnalysisError("spinn5_fpga_link: the look-up in "
+                            "SPINN5_FPGA_LINKS was not found")
+    want_keys = [("tuple", ("comp", cc, 0), ("comp", cc, 1), P_(ps[2]))
+                 for cc in (CC, CCK)]
+    ok = all(k in want_keys for k in keys) and all(
+        r_ == ("const", None) or any(
+            st_[0] in ("get", "item") and st_[1] == TABLE
+            for st_ in subterms(r_)) for r_ in rets)
     rep.check(ok, "C19-R3", qual(fn),
               "spinn5_fpga_link looks up (on-board x, on-board y, link) where "
               "the on-board coordinate is spinn5_chip_coord(x, y, root_x, "
@@ -342,13 +352,20 @@ def r4_dimensions(program, rep):
                             "general return")
     rn = fl.cfg.node_of(last[0])
     w12, h12 = [fl.sym(e, rn) for e in last[0].value.elts]
+    if any(str(a_).startswith("call:") for p_ in (w12, h12)
+           for a_ in p_.atoms()):
+        raise AnalysisError("standard_system_dimensions: the factor is "
+                            "taken from a call (e.g. next() over a "
+                            "generator); that form is not analysed")
     triads = fl.fdiv(nb, Poly.const(3))
     # h is the loop variable; w = triads // h; result (12 w, 12 h)
     hs = [a for a in h12.atoms()]
     ok = False
     if len(h12.t) == 1 and len(hs) == 1 and list(h12.t.values())[0] == 12:
         H = Poly.atom(hs[0])
-        ok = (w12 == fl.fdiv(triads, H) * 12)
+        # (n // 3) // h == n // (3 * h) for h >= 1
+        ok = (w12 == fl.fdiv(triads, H) * 12) or \
+            (w12 == fl.fdiv(nb, H * 3) * 12)
     rep.check(ok, "C19-R4", inst,
               "result = (12 * (triads // h), 12 * h) with triads = "
               "num_boards // 3", construct="dimension scaling (%r, %r)" % (
@@ -372,9 +389,13 @@ def r4_dimensions(program, rep):
 
         def factor_fact(facts):
             for t, p in facts:
+                o = None
                 if p and t[0] == "cmp" and t[1] == "Eq" and \
                         ("const", 0) in (t[2], t[3]):
                     o = t[3] if t[2] == ("const", 0) else t[2]
+                elif not p and t[0] == "binop" and t[1] == "Mod":
+                    o = t           # `not a % b` is `a % b == 0`
+                if o is not None:
                     if o[0] == "binop" and o[1] == "Mod" and \
                             plain(o[3]) == HT:
                         try:
@@ -405,6 +426,11 @@ def r4_dimensions(program, rep):
                 l = fl.sym(cond.left, a)
                 if l == fl.mod(nb, Poly.const(3)):
                     okg = True
+        M3 = ("binop", "Mod", ("param", formals(fn)[0]), ("const", 3))
+        for t, p in T.all_facts(T.cfg.node_of(r)):
+            if (plain(t), p) in ((M3, True),
+                                 (mk_cmp("Eq", M3, ("const", 0)), False)):
+                okg = True
     rep.check(okg, "C19-R4", inst, "board counts that are not a multiple of "
               "3 (other than 0 and 1) are rejected with ValueError",
               construct="multiple-of-3 guard", node=fn)
